@@ -526,7 +526,18 @@ bool fault_here(int kind, uint32_t num, int64_t *arg_out, int64_t arg_range)
 void access_region_add(const void *base, size_t len)
 {
 	Region r; r.base = (const char *)base; r.len = len;
+	// a new mapping over the range of an older one means the older one is gone (where the kernel places a mapping
+	// varies from process to process, so a stale region must never be matched); the index of a region is its
+	// position in the order of creation and does not depend on addresses
+	for (size_t n = 0; n < regions.size(); n++)
+		if (regions[n].len && r.base < regions[n].base + regions[n].len && regions[n].base < r.base + len) regions[n].len = 0;
 	regions.push_back(r);
+}
+void access_region_unmap(const void *base, size_t len)
+{
+	const char *b = (const char *)base;
+	for (size_t n = 0; n < regions.size(); n++)
+		if (regions[n].len && b < regions[n].base + regions[n].len && regions[n].base < b + len) regions[n].len = 0;
 }
 void access_regions_clear() { regions.clear(); }
 
